@@ -20,6 +20,7 @@ RULE = ("case = (a) an abstract line program (1-12, thorough 1-40 instructions; 
         "!= intended mapping) are excluded and counted.  non-trivial = a table with a split entry, a zero-width entry or a "
         "no-line entry; distinct = sha1(case)+interpreter")
 ASSUMPTIONS = _prog.PROG_ASSUMPTIONS + [
+    "thorough tier: atheris 3.0 (libFuzzer) under python3-vt on code_data._line_mapping's stage functions, 16 campaigns of 25000 executions (-seed = VERIF_SEED*100+shard+1; even shards empty corpus, odd shards 4 small seed inputs); a libFuzzer campaign is pinned only approximately by its seed: the saved failing input is the reproducible unit and is re-verified through the worker path",
     "M-LNOTAB / M-LINETABLE (harness/linemodels.py) are transcriptions validated empirically: every real table met in a run is re-derived and re-emitted through the model (model_validated_real_tables vs model_mismatch_real_tables)",
     "a violation seen only on model-generated tables needs a real-compiler witness at triage (DESIGN.md section 4)"]
 REQUIRED_CLASSES = ["split_line", "split_bytes", "zero_width", "noline_entry", "dline0", "negative_delta", "native_table",
@@ -34,7 +35,7 @@ def versions_for(case):
 
 def run_case(ctx, case, versions):
     if "fmt" in case:
-        a = {k: v for k, v in case.items() if k != "prog"}
+        a = {k: v for k, v in case.items() if k not in ("prog", "_from_fuzz_input")}
         return ctx.pool.call("c10_table", a, versions)
     if "linemap" in case:
         return ctx.pool.call("c10_relabel", {"case": _prog.op_args(case["case"])["case"], "linemap": case["linemap"]}, versions)
@@ -80,6 +81,68 @@ def fixed_cases(tier):
 
 def examples(tier):
     return 9000 if tier == "quick" else 200000
+
+
+FUZZ_SEEDS = [bytes([3, 0, 3, 7, 0, 0, 0, 7, 4, 3, 0, 7, 5]), bytes([2, 1, 5, 0, 9, 8, 2, 1, 0, 9, 2, 3, 11, 4, 5]),
+              bytes([3, 0, 4, 16, 0, 13, 0, 16, 1, 5, 0, 8, 2]), bytes([0, 0, 6, 4, 4, 9, 0, 17, 6, 2, 4, 12, 3, 3])]
+
+
+def hypothesis_run(ctx):
+    """generated cases, then (thorough only) the coverage-guided tier: an atheris campaign per shard on
+    the stage functions; every saved failing input is decoded to a G-LINE table case and re-verified
+    through the worker path on the real interpreters before it can become a violation"""
+    import glob
+    import os
+    import shutil
+    import subprocess
+    import sys
+    import runner
+    runner.default_hypothesis_run(ctx)
+    if ctx.tier != "thorough" or ctx.target is not None:
+        return
+    py = shutil.which("python3-vt") or "/opt/veriftools/pyvenv/bin/python"
+    harness = os.path.dirname(os.path.abspath(runner.__file__))
+    try:
+        ok = subprocess.run([py, "-c", "import atheris"], stdout=subprocess.DEVNULL, stderr=subprocess.DEVNULL, timeout=60).returncode == 0
+    except Exception:
+        ok = False
+    if not ok:
+        ctx.extra["atheris"] = "not importable: coverage-guided tier skipped"
+        return
+    work = os.path.join(os.environ.get("VERIF_SCRATCH_DIR") or os.path.join(os.path.dirname(harness), ".scratch"), "fuzz_%d" % ctx.shard)
+    corpus = os.path.join(work, "corpus")
+    os.makedirs(corpus, exist_ok=True)
+    seeded = ctx.shard % 2 == 1
+    if seeded:
+        for i, b in enumerate(FUZZ_SEEDS):
+            with open(os.path.join(corpus, "seed%d" % i), "wb") as f:
+                f.write(b)
+    runs = 25000
+    env = dict(os.environ, PYTHONPATH=os.path.join(harness, "shims") + os.pathsep + os.environ.get("VERIF_REPO", "/repo"), PYTHONHASHSEED="0")
+    cmd = [py, os.path.join(harness, "fuzz_c10.py"), corpus, "-runs=%d" % runs, "-seed=%d" % (ctx.seed * 100 + ctx.shard + 1),
+           "-artifact_prefix=" + work + "/", "-max_len=64", "-print_final_stats=1"]
+    try:
+        p = subprocess.run(cmd, env=env, stdout=subprocess.PIPE, stderr=subprocess.STDOUT, timeout=1500, cwd=work)
+        out = p.stdout.decode("utf-8", "replace")
+    except subprocess.TimeoutExpired as e:
+        out = (e.stdout or b"").decode("utf-8", "replace")
+        ctx.extra["atheris_timeouts"] = ctx.extra.get("atheris_timeouts", 0) + 1
+    done = 0
+    for line in out.splitlines():
+        if line.startswith("stat::number_of_executed_units:"):
+            done = int(line.split(":")[-1])
+    ctx.extra["atheris_executions"] = ctx.extra.get("atheris_executions", 0) + done
+    ctx.extra["atheris_campaigns_seeded_corpus" if seeded else "atheris_campaigns_empty_corpus"] = 1
+    sys.path.insert(0, harness)
+    import fuzz_c10
+    for crash in sorted(glob.glob(os.path.join(work, "crash-*"))):
+        with open(crash, "rb") as f:
+            data = f.read()
+        case = fuzz_c10.decode(data)
+        case["_from_fuzz_input"] = data.hex()
+        ctx.extra["atheris_failing_inputs"] = ctx.extra.get("atheris_failing_inputs", 0) + 1
+        ctx.evaluate(case, "atheris", in_hypothesis=False)
+    shutil.rmtree(work, ignore_errors=True)
 
 
 def wall_budget(tier):
